@@ -61,6 +61,7 @@ def build_one(args):
         return name, "DOES-NOT-COMPILE"
     shutil.rmtree(dst, ignore_errors=True)
     shutil.copytree(m.group(1), dst)
+    shutil.copy(os.path.join(repo, "Cargo.toml"), os.path.join(dst, "Cargo.toml"))     # the one non-Rust input a rule reads
     open(stamp, "w").write(txt)
     return name, "built"
 
